@@ -53,6 +53,7 @@ static Verdict judge_script(const std::string &script) {
 	}
 	Verdict v; bool refused = false, again = false, full = false; for (auto &kv : tk) { refused |= kv.second.refused > 0; again |= kv.second.ran_after_refusal; full |= kv.second.limit > 0 && kv.second.maxrun == kv.second.limit; }
 	v.nontrivial = refused && full;
+	{ size_t nsub = 0, p = 0; while ((p = script.find("SUBMIT ", p)) != std::string::npos) { nsub++; p += 7; } if (nsub > tk.size()) v.classes.push_back("task-resubmitted"); }
 	if (refused) v.classes.push_back("limit-hit"); if (again) v.classes.push_back("runs-again-after-refusal"); if (other_at_limit_while_started) v.classes.push_back("other-task-started-while-one-at-limit");
 	for (auto &kv : tk) v.classes.push_back(kv.second.limit < 0 ? "N/unset" : kv.second.limit == 1 ? "N/1" : kv.second.limit < 5 ? "N/2-4" : kv.second.limit < 62 ? "N/5-61" : "N/62");
 	v.classes.push_back(nspawn < 10 ? "spawns/<10" : nspawn < 100 ? "spawns/10-99" : "spawns/100+");
@@ -77,15 +78,19 @@ void prop_gen(Ctx &c) {
 		size_t nops = 6 + (size_t)*R(0, maxops - 6);
 		std::string script = "USERS 1000 1001\n";
 		double now = T0;
+		std::vector<std::string> sub;   // the requests that queued the tasks, for re-submission later
 		for (size_t i = 0; i < tasks.size(); i++) {
 			int sel = std::get<0>(tasks[i]); long lim = sel < 3 ? 1 : sel < 5 ? 2 : sel < 6 ? 3 : sel < 7 ? std::get<1>(tasks[i]) : sel < 8 ? 62 : -1;
 			std::vector<std::string> lines; lines.push_back("RRULE:FREQ=SECONDLY;INTERVAL=" + std::to_string(std::get<2>(tasks[i])) + ";COUNT=" + std::to_string(lim > 5 ? 90 : 40));
 			if (lim >= 0) lines.push_back("X-ECHS-MAX-SIMUL:" + std::to_string(lim));
-			script += submit_op(1000 + (unsigned)(i & 1), event_ics("job" + std::to_string(i), (int64_t)T0 + 1 + std::get<3>(tasks[i]), lines));
+			sub.push_back(submit_op(1000 + (unsigned)(i & 1), event_ics("job" + std::to_string(i), (int64_t)T0 + 1 + std::get<3>(tasks[i]), lines)));
+			script += sub.back();
 		}
+		bool resubmit = *R(0, 4) == 0;   // 1 schedule in 4: tasks are submitted again (unchanged) while executions of theirs may be running; those still count
 		for (size_t i = 0; i < nops && i < ops.size(); i++) {
 			auto &o = ops[i]; int sel = std::get<0>(o);
 			if (sel < 55) { int lc = std::get<3>(o); double late = lc < 3 ? 0.001 : lc == 3 ? 0.4 : lc == 4 ? 1.0 : 7.5; now += std::get<1>(o); char b[96]; snprintf(b, sizeof b, "ADV %.3f %.3f\n", now, late); script += b; now += late; }
+			else if (sel < 62 && resubmit) script += sub[(size_t)std::get<2>(o) % sub.size()];
 			else if (sel < 90) script += "EXITN " + std::to_string(std::get<2>(o)) + "\n";
 			else if (sel < 96) script += "EXITALL\n";
 			else script += "DUMP\n";
